@@ -348,7 +348,10 @@ func run(c *harness.Ctx, i int) {
 						break
 					}
 					if f, ok := e.(desync.NodeFile); ok {
-						io.Copy(io.Discard, io.LimitReader(f.Data, 1<<20))
+						got, cerr := io.Copy(io.Discard, io.LimitReader(f.Data, 1<<20))
+						if cerr != nil || (f.Size <= 1<<20 && uint64(got) != f.Size) {
+							return "error" // the content ended early: the consumer can tell
+						}
 					}
 					n++
 				}
@@ -468,6 +471,17 @@ func run(c *harness.Ctx, i int) {
 			fmt.Sscanf(f[2], "%d-of-%d", &cut, &full)
 			if cut < full {
 				c.Violation("malformed-accepted:index", "IndexFromReader accepted the first %d of the %d bytes of %s as an index (%s)", cut, full, f[1], r.outcome)
+				saveInput(c, in)
+				return
+			}
+		}
+		// ... and so is a strict prefix of an archive: it ends inside an element, inside a file's content or with
+		// directories still open
+		if f := strings.Split(gen, "|"); target == "archive" && f[0] == "truncation" && len(f) == 3 && (strings.HasSuffix(f[1], ".catar") || strings.HasPrefix(f[1], "own-archive")) && strings.HasPrefix(r.outcome, "ok") {
+			var cut, full int
+			fmt.Sscanf(f[2], "%d-of-%d", &cut, &full)
+			if cut > 0 && cut < full { // (an empty stream is taken as an archive of nothing)
+				c.Violation("malformed-accepted:archive", "ArchiveDecoder read the first %d of the %d bytes of %s to the end without an error (%s)", cut, full, f[1], r.outcome)
 				saveInput(c, in)
 				return
 			}
